@@ -3,3 +3,33 @@ chk("C09", "model_checking",
     "Every (stored state x request) cell of the protocol's decision table for sizes 0..17 (old sizes to 18 plus 2^32, 2^63, 2^64-1; honest and forked checkpoints; 15+ proof shapes) is executed on the real witness over both stores and compared with the first-matching-rule model; thorough adds the power-of-two grid to 2^62 on a uniform tree. This is exhaustive inside the bound, which is what a nine-example test cannot be.",
     "Trusted: Ed25519/SHA-256, the harness's RFC 6962 reference (cross-checked against x/mod tlog on every proof verdict), generator ground truth for checkpoints. Sizes beyond the bound on non-uniform trees are not explored.",
     "DESIGN.md §5 C09, §4.1")
+chk("C01", "model_checking",
+    "explicit-state BFS over the real Witness with a ground-truth (leaf-list prefix) monitor on every state change",
+    "The search runs to fixpoint over every reachable canonical state (size, root) of a forking log universe and applies the full adversarial alphabet (all old sizes incl. 2^32/2^63/2^64-1, log-signed checkpoints of every branch, 15+ proof shapes incl. the proof an adversarial log would send, forged checkpoints) in every state on both stores; every accepted transition is checked against the generator's leaf lists. Because the witness keeps only the latest checkpoint and the prefix relation is transitive, per-step checking over all reachable states decides the all-histories statement inside the bound.",
+    "Bounded universe (quick: 8 leaves, 4 forks; thorough: 17 leaves, 9 forks + power-of-two grid on a uniform tree + path-exhaustive depth 3). SHA-256/Ed25519 trusted.",
+    "DESIGN.md §5 C01, §4.1")
+chk("C03", "model_checking",
+    "explicit-state BFS with a before/after snapshot monitor on every refused transition, plus single-fault enumeration for the storage-failure class",
+    "Every refused transition of the search (all seven protocol refusal classes, each required to occur) is followed by a byte-for-byte comparison of the stored checkpoint of every log and the log list, read through the unwrapped store, and of the returned bytes with the stored checkpoint; storage failures are covered by placing every single fault in every storage call of six histories on both stores.",
+    "Same bounds as C01 (two-log witness). A Set that takes effect and is then reported as failed is left to C07.",
+    "DESIGN.md §5 C03")
+chk("C04", "model_checking",
+    "explicit-state BFS with a signature-block / freshness monitor on every accepted transition under a logical clock",
+    "All accepted transitions (first use, growth, refresh - each required to occur for every key set and shape) for three witness key sets x seven checkpoint shapes x both stores are inspected line by line: text identity, log signature, exactly one valid line per witness key, cosignature timestamp inside the logical-clock window of the producing call, read-after-update identity.",
+    "The cosignature/v1 time source is replaced by a logical clock through a build overlay of one dependency file (time.Now() -> hookable variable); one configuration also runs on the wall clock with an inclusive window.",
+    "DESIGN.md §5 C04")
+chk("C07", "fault_enumeration",
+    "deviation-bounded DFS over storage-call answers (interface level and SQL-driver level) with a reference-model oracle and driver-state wedge detection",
+    "Every placement of up to k faults (quick 2/2, thorough 3/3) in every storage call of six histories, on the in-memory store and on SQLite with the production single-connection pool, at the LogStatePersistence interface and at the database/sql driver; each execution is followed by a fault-free suffix. Oracle: success implies read-back equality and acceptability from the really stored state (so a failed read is never first use), errors leave the state unchanged (or, for a commit reported failed after taking effect, old or new), no transaction/handle is left open.",
+    "Fault model restricted to effects a real failure can have; wedge decided from driver state, not a deadline.",
+    "DESIGN.md §5 C07, §4.3")
+chk("C08", "model_checking",
+    "exhaustive enumeration of prior histories (depth-bounded) on the real witness, then an honest probe to every larger size from every reached state",
+    "All prior histories up to depth 2 (quick) / 3 (thorough) over honest checkpoints of ten shapes (including 96-100 extra signature lines, size 0) and eight refused kinds; from every reached state every honest step s->t for t up to the universe size is executed on a fresh replay on both stores and must be accepted.",
+    "One open known finding (size-0 stored checkpoint) is reported as KNOWN-FINDING; the 100-signature wedge was repaired (known_findings.json).",
+    "DESIGN.md §5 C08, §6")
+chk("C20", "model_checking",
+    "explicit-state BFS with a recording MetricFactory; counter deltas compared with the model after every transition",
+    "A recording metric factory is installed before the first witness exists; the single-worker search over a two-log witness compares, after every Update, the delta of every counter and label with the model's prediction for that verdict, so a missing, misplaced or mislabelled increment on any path/state combination in the bound is caught.",
+    "Counters are process-wide, hence one worker. Bounds: sizes 0..6 (quick) / 0..12 (thorough).",
+    "DESIGN.md §5 C20")
